@@ -246,6 +246,17 @@ impl State {
         Err(kind.into())
     }
 
+    /// Acts as a "barrier" for [`futures::AsyncWrite::poll_flush`].
+    ///
+    /// Flushing stays possible in every state (pending `FIN` / `STOP_SENDING` messages must
+    /// still go out) except after a reset, which fails every operation.
+    pub(crate) fn flush_barrier(&self) -> io::Result<()> {
+        match self {
+            State::BothClosed { reset: true } => Err(io::ErrorKind::ConnectionReset.into()),
+            _ => Ok(()),
+        }
+    }
+
     /// Acts as a "barrier" for [`futures::AsyncWrite::poll_close`].
     pub(crate) fn close_write_barrier(&mut self) -> io::Result<Option<Closing>> {
         loop {
